@@ -5,7 +5,7 @@
 tier=$1; seeds=$2; shift 2
 props=${@:-C01 C02 C03 C04 C05 C06 C07 C08 C09 C10 C11 C12 C13 C14 C15 C16 C17 C18 C19 C20}
 cd /verif; out=runs/sweep-$tier.tsv; : > $out
-one(){ p=$1; tier=$2; out=$3; shift 3; for s in "$@"; do t=$(mktemp -p /var/tmp sweep.XXXXXX); ./check $p --tier $tier --seed $s > $t 2>&1; rc=$?; l=$(grep "^$p tier=" $t | tail -1); nv=$(grep -c '^VIOLATION' $t); rm -f $t; echo -e "$p\t${l#* } violation_lines=$nv rc=$rc" >> $out; done; }
+one(){ p=$1; tier=$2; out=$3; shift 3; for s in "$@"; do t=$(mktemp -p /var/tmp sweep.XXXXXX); ./check $p --tier $tier --seed $s > $t 2>&1; rc=$?; l=$(grep "^$p tier=" $t | tail -1); nv=$(grep -c '^VIOLATION' $t); if [ $rc != 0 ] || [ $nv != 0 ]; then mkdir -p runs/failed; grep -v "^KNOWN" $t | tail -40 > runs/failed/$p-$tier-seed$s.txt; fi; rm -f $t; echo -e "$p\t${l#* } violation_lines=$nv rc=$rc" >> $out; done; }
 export -f one
 par=4; [ $tier = thorough ] && par=2
 # seeds in the given order, then seed 1 again only if it was not last
